@@ -82,6 +82,13 @@ class Run:
                 self.known_hit.append(k)
                 print('KNOWN-FINDING: property=%s %s' % (self.prop, k.get('what', what)))
             return
+        # many inputs failing the same clause of the same function: keep the first few replay files, count the rest
+        grp = (str(key.get('function', key.get('obligation'))), str(key.get('kind')), str(key.get('clause', key.get('text', ''))))
+        self._per_clause = getattr(self, '_per_clause', collections.Counter())
+        self._per_clause[grp] += 1
+        if self._per_clause[grp] > 5 and key.get('function') is not None:
+            self.extra['suppressed_similar_violations'] = self.extra.get('suppressed_similar_violations', 0) + 1
+            return
         os.makedirs(os.path.join(VERIF, 'replays'), exist_ok=True)
         h = hashlib.sha1(json.dumps(_jsonable(key), sort_keys=True).encode()).hexdigest()[:10]
         path = os.path.join(VERIF, 'replays', '%s_%s.json' % (self.prop, h))
